@@ -3,6 +3,7 @@
   script the code tables accept, without FLG(n), whose data bytes are the text.
 -/
 import Gzx.Proofs.AztecHL
+set_option linter.unusedSimpArgs false
 namespace Gzx.AztecGreedy
 open Gzx Gzx.Ref.Aztec Gzx.AztecHL
 
